@@ -43,6 +43,9 @@ CHECKS = {
     "C06": ("exploration", E1 + " (cross product of documented file conventions; the emitter is the oracle)",
             "Delimited tables over every header alias triple x letter case x separator/decimal mark with negation markers, unit suffixes, column orders, row orders, 1-3 sweeps and 1-7 points (rotating in quick, crossed in thorough), the full product of the structural switches with fixed aliases, the CSV table printed by the CLI fed back, and emitters for .mpt/.i2b/.P00/.dfr/.z/.dta (incl. drift-corrected) are written to a scratch directory, parsed with parse_data and compared with the emitted spectrum (sign of Im, one data set per sweep, sweep labels).",
             "Combinations outside the documented detection contract are not generated (decimal comma with comma separator; headers containing the separator; spaces in headers of semicolon files); extension-less parsing is not checked (parser order depends on set iteration).", "DESIGN.md section 4, C06"),
+    "C07": ("exploration", E1 + " (cross product of test kinds, representations, options and grids on spectra of an independent model implementation)",
+            "All six linear test implementations and cnls x {Z, Y} x capacitance x inductance x num_RC x log_F_ext x six frequency grids x sign patterns x magnitude scales over six decades (24k quick / 119k thorough runs): the spectrum is computed by an independent implementation of the test's own model (eq. 12 time constants, Fig. 1 / Fig. 13 topology); residuals must vanish (1e-6; cnls 1e-3), the fitted time constants must equal the reference ones and every parameter the spectrum is sensitive to must be recovered to 1e-4 where the weighted design matrix is well conditioned.",
+            "Only well-posed configurations (>= 2 data points per unknown) are generated; real-valued parameters and frequencies are covered on the declared grid only.", "DESIGN.md section 4, C07"),
 }
 
 NOT_YET = "check not built yet in this round (planned, see DESIGN.md section 4)"
